@@ -367,6 +367,12 @@ impl C04 {
             cfg.small_buffer = true;
             cfg.board = 0;
         }
+        if cfg.phy.is_none() && !cfg.small_buffer && r.chance(1, 12) {
+            // an uplink-only application: downlink queue of depth 0
+            cfg.dl_queue0 = true;
+            cfg.lazy_app = false;
+            cfg.board = 0;
+        }
         let n = r.range(2, 14) as usize;
         let mut ops = Vec::new();
         let gen_txn = |r: &mut Rng, cfg: &WorldCfg, join: bool| {
